@@ -892,13 +892,32 @@ class Interp:
                     return k(VInt(t), s2.assume(fact) if fact is not None else s2)
                 return self.cx.branch(st, ib == 0, lambda s1: raise_(s1, "ZeroDivisionError"), nz)
         if isinstance(a, VStr) and isinstance(op, ast.Mod):
-            return k(VStr(), st)       # message formatting: opaque text
+            r = self.format_percent_s(a, b)
+            return k(r if r is not None else VStr(), st)       # other message formatting: opaque text
         if isinstance(a, VStr) and isinstance(b, VStr) and isinstance(op, ast.Add):
             if a.t is not None and b.t is not None:
                 c = a.const + b.const if a.const is not None and b.const is not None else None
                 return k(VStr(z3.Concat(a.t, b.t), const=c) if c is None else VStr(const=c), st)
             return k(VStr(), st)
         return self.bi.binop(op, a, b, st, k)
+
+    def format_percent_s(self, fmt, arg):
+        """'lit%slit%s' % (a, b) with string arguments: the concatenation (exact); anything else: None"""
+        if fmt.const is None:
+            return None
+        args = list(arg.items) if isinstance(arg, VTuple) else [arg]
+        parts = fmt.const.split("%s")
+        if len(parts) != len(args) + 1 or "%" in "".join(parts) or not all(isinstance(x, VStr) and x.t is not None for x in args):
+            return None
+        terms = []
+        for i, ptxt in enumerate(parts):
+            if ptxt:
+                terms.append(z3.StringVal(ptxt))
+            if i < len(args):
+                terms.append(args[i].t)
+        if not terms:
+            return VStr(const="")
+        return VStr(z3.Concat(*terms) if len(terms) > 1 else terms[0])
 
     def binop_inplace(self, op, a, b, st, k):
         if isinstance(a, VRef):
@@ -940,22 +959,34 @@ class Interp:
             return self.ev(n.value, st, ks)
         return self.ev(n, st, lambda v, st2: self.ev_args(nodes[1:], st2, k, acc + (v,)))
 
+    def ev_keywords(self, keywords, st, k, acc=None):
+        acc = dict(acc or {})
+        if not keywords:
+            return k(acc, st)
+        kw = keywords[0]
+
+        def k1(v, st2):
+            if kw.arg is None:
+                if isinstance(v, VFunc) and v.kind == "objdict":
+                    acc.update(st2.heap[v.ref.oid].fields)
+                    return self.ev_keywords(keywords[1:], st2, k, acc)
+                raise Unsupported("** of a non-literal mapping at line %d" % kw.value.lineno)
+            acc[kw.arg] = v
+            return self.ev_keywords(keywords[1:], st2, k, acc)
+        return self.ev(kw.value, st, k1)
+
     def e_Call(self, e, st, k):
-        if any(kw.arg is None for kw in e.keywords):
-            raise Unsupported("**kwargs call at line %d" % e.lineno)
         # super().m(...)
         f = e.func
         if (isinstance(f, ast.Attribute) and isinstance(f.value, ast.Call) and isinstance(f.value.func, ast.Name)
                 and f.value.func.id == "super" and not f.value.args):
             def ksup(args, st2):
-                return self.ev_list([kw.value for kw in e.keywords], st2, lambda kv, st3: self.call_super(
-                    f.attr, args, dict(zip([kw.arg for kw in e.keywords], kv)), st3, k))
+                return self.ev_keywords(e.keywords, st2, lambda kw, st3: self.call_super(f.attr, args, kw, st3, k))
             return self.ev_args(e.args, st, ksup)
 
         def k1(fv, st2):
-            return self.ev_args(e.args, st2, lambda args, st3: self.ev_list(
-                [kw.value for kw in e.keywords], st3,
-                lambda kv, st4: self.call(fv, args, dict(zip([kw.arg for kw in e.keywords], kv)), st4, k)))
+            return self.ev_args(e.args, st2, lambda args, st3: self.ev_keywords(
+                e.keywords, st3, lambda kw, st4: self.call(fv, args, kw, st4, k)))
         return self.ev(f, st, k1)
 
     # -- attribute access -----------------------------------------------------
@@ -1148,10 +1179,15 @@ class Interp:
     def bind_params(self, node, args, kwargs, st, k_bound):
         """Evaluate defaults and bind parameters of FunctionDef/Lambda `node`; -> env dict via k_bound(env, st)."""
         a = node.args
-        if a.kwarg:
-            raise Unsupported("**kwargs in callee %s" % getattr(node, "name", "<lambda>"))
         pos = [p.arg for p in a.posonlyargs + a.args]
         env = {}
+        if a.kwarg:
+            known = set(pos) | {p.arg for p in a.kwonlyargs}
+            extra = {n: v for n, v in kwargs.items() if n not in known}
+            kwargs = {n: v for n, v in kwargs.items() if n in known}
+            oid = self.cx.new_oid()
+            st = st.put(oid, HObj("obj", None, None, dict(extra), {"is_state_dict": True}))
+            env[a.kwarg.arg] = VFunc("objdict", ref=VRef(oid))
         if a.vararg:
             env[a.vararg.arg] = VTuple(args[len(pos):])
             args = args[:len(pos)]
